@@ -56,9 +56,11 @@ namespace ip {
 		std::vector<asio::ip::address> result;
 		boost::system::error_code ec;
 
+		// lookups are served one at a time: this one starts when the last queued
+		// one completes (not the first one)
 		const chrono::high_resolution_clock::time_point start_time =
 			m_queue.empty() ? chrono::high_resolution_clock::now() :
-			m_queue.front().completion_time;
+			m_queue.back().completion_time;
 
 		assert(!m_ios->get_ips().empty() && "internal io service objects can only "
 			"be used for timers");
